@@ -13,24 +13,24 @@ def cursorAfter (origin : Nat) : List Obj → Nat → Nat
 /-- absolute bit `a` is bit `j` of object `o` placed at byte `pos` -/
 def Obj.claims (o : Obj) (pos a : Nat) : Prop := ∃ j, j < o.bl ∧ a = absBit pos o.k o.hl (j + o.bp)
 
-theorem encAll_append (xs ys : List (Obj × Int)) (s : EncState) : encAll (xs ++ ys) s = encAll ys (encAll xs s) := by
+theorem encAll_append (xs ys : List (Obj × IVal)) (s : EncState) : encAll (xs ++ ys) s = encAll ys (encAll xs s) := by
   induction xs generalizing s with
   | nil => rfl
   | cons x xs ih => simp [encAll, ih]
 
-theorem encAll_origin (ovs : List (Obj × Int)) (s : EncState) : (encAll ovs s).origin = s.origin := by
+theorem encAll_origin (ovs : List (Obj × IVal)) (s : EncState) : (encAll ovs s).origin = s.origin := by
   induction ovs generalizing s with
   | nil => rfl
   | cons x xs ih => simp [encAll, ih, encStep_origin]
 
-theorem encAll_cursor (ovs : List (Obj × Int)) (s : EncState) :
+theorem encAll_cursor (ovs : List (Obj × IVal)) (s : EncState) :
     (encAll ovs s).cursorByte = cursorAfter s.origin (ovs.map (·.1)) s.cursorByte := by
   induction ovs generalizing s with
   | nil => rfl
   | cons x xs ih => simp [encAll, ih, encStep_origin, encStep_cursor, cursorAfter]
 
 /-- a bit the object does not claim is left alone by its emplacement -/
-theorem encStep_unclaimed (o : Obj) (v : Int) (s : EncState) (a : Nat)
+theorem encStep_unclaimed (o : Obj) (v : IVal) (s : EncState) (a : Nat)
     (h : ¬ o.claims (o.pos s.origin s.cursorByte) a) : getBit (encStep o v s).msg a = getBit s.msg a := by
   rw [encStep_msg]
   by_cases hin : o.pos s.origin s.cursorByte ≤ a / 8 ∧ a / 8 < o.pos s.origin s.cursorByte + o.k
@@ -63,11 +63,11 @@ theorem encStep_unclaimed (o : Obj) (v : Int) (s : EncState) (a : Nat)
 
 /-- **Described bits.** With no overlap warning, every bit of every object has, in the final message, the value
     the ODX representation of the object's value prescribes — at the position the positional rule prescribes. -/
-theorem flat_described (pre post : List (Obj × Int)) (o : Obj) (v : Int) (s : EncState)
+theorem flat_described (pre post : List (Obj × IVal)) (o : Obj) (v : IVal) (s : EncState)
     (hw : (encAll (pre ++ (o, v) :: post) s).warn = s.warn) (j : Nat) (hj : j < o.bl) :
     getBit (encAll (pre ++ (o, v) :: post) s).msg
         (absBit (o.pos s.origin (cursorAfter s.origin (pre.map (·.1)) s.cursorByte)) o.k o.hl (j + o.bp))
-      = (int32Raw o.enc o.bl v).toNat.testBit j := by
+      = (o.raw v).testBit j := by
   rw [encAll_append] at hw ⊢
   simp only [encAll] at hw ⊢
   have h1 := encAll_warn_ge pre s
@@ -79,7 +79,7 @@ theorem flat_described (pre post : List (Obj × Int)) (o : Obj) (v : Int) (s : E
   rw [hpos, encAll_frame post _ hpost _ (encStep_own_used o v _ j hj), encStep_own_bits o v _ j hj]
 
 /-- **Undescribed bits.** A bit that no object claims keeps the value it had before (zero in a fresh message). -/
-theorem flat_undescribed (ovs : List (Obj × Int)) :
+theorem flat_undescribed (ovs : List (Obj × IVal)) :
     ∀ (s : EncState) (a : Nat),
       (∀ pre o v post, ovs = pre ++ (o, v) :: post →
           ¬ o.claims (o.pos s.origin (cursorAfter s.origin (pre.map (·.1)) s.cursorByte)) a) →
